@@ -612,7 +612,11 @@ func (p Prop) Run(ci interface{}, focus *core.Violation) *core.Outcome {
 	}
 	if sr.Aborted {
 		if sr.Reason == "deadlock" {
-			report("deadlock", fmt.Sprintf("bound=%d|%s", c.Bound, stuckKey(sr.Stuck)), fmt.Sprintf("every unfinished task waits: %v", sr.Stuck))
+			b := "unbounded"
+			if c.Bound > 0 {
+				b = "bounded"
+			}
+			report("deadlock", b+"|"+stuckKey(sr.Stuck), fmt.Sprintf("every unfinished task waits: %v", sr.Stuck))
 			return o
 		}
 		o.Trouble = "run aborted: " + sr.Reason + " " + strings.Join(sr.Stuck, "; ")
@@ -843,15 +847,34 @@ func leakKey(res *result) string {
 	return strings.Join(l, ",")
 }
 
+// stuckKey is the set of things the deadlocked tasks wait for.
 func stuckKey(st []string) string {
-	var w []string
+	set := map[string]bool{}
 	for _, s := range st {
-		if i := strings.Index(s, "waits for "); i >= 0 {
-			w = append(w, s[i+10:])
+		i := strings.Index(s, "waits for ")
+		if i < 0 {
+			continue
 		}
+		what := s[i+10:]
+		switch {
+		case strings.HasPrefix(what, "prepare:"):
+			what = "inprogress-prepare"
+		case strings.HasPrefix(what, "closer:"):
+			what = "closer"
+		}
+		set[what] = true
+	}
+	if set["inprogress-prepare"] && set["pool slot"] {
+		// the cycle "a transaction holds the last connection and waits for an in-progress
+		// preparation, whose Prepare waits for a connection"; whoever else is stuck behind it is incidental
+		return "inprogress-prepare+pool slot"
+	}
+	var w []string
+	for k := range set {
+		w = append(w, k)
 	}
 	sort.Strings(w)
-	return strings.Join(w, ",")
+	return strings.Join(w, "+")
 }
 
 func firstWords(s string, n int) string {
